@@ -174,7 +174,16 @@ def impl(t, case):
         if fmt == "Dict":
             payload = copy.deepcopy(d)
         elif fmt == "Json":
-            payload = root.to_json(serialization_options=o)
+            # compact / indented / bytes spelling of the JSON entry point in rotation (seeded change C16-9: options dropped
+            # on the indented path): the text differs only in white space
+            k3 = len(ser.args) % 3 if hasattr(ser, "args") else 0
+            k3 = (k3 + tree_size(tree)) % 3
+            if k3 == 0:
+                payload = root.to_json(serialization_options=o)
+            elif k3 == 1:
+                payload = root.to_json(indent=True, serialization_options=o)
+            else:
+                payload = root.to_jsonb(indent=True, serialization_options=o)
         elif fmt == "Msgpack":
             payload = root.to_msgpck(serialization_options=o)
         else:
@@ -227,7 +236,12 @@ def impl(t, case):
                 keepalive.append(x)
             ps = [Con("P", f.name, from_py(getattr(x, f.name))) for f in u.merged(type(x).__name__) if f.role == "Prop"]
             ks = [Con("K", name, Con(sh), [obs(c) for c in l]) for name, sh, l in kids_of(u, x)]
-            return Con("New", news[id(x)], type(x).__name__, x.id, x.content_id, obs_origin_struct(x.origin), ps, ks)
+            # the class is observed as an OBJECT: a re-created node must be an instance of the class the model's name denotes
+            # (seeded change C04-9: the class object discarded by dataclass(slots=True) stayed registered under the name)
+            cn = type(x).__name__
+            if type(x) is not getattr(u.module, cn, None):
+                cn += "<another class object of that name>"
+            return Con("New", news[id(x)], cn, x.id, x.content_id, obs_origin_struct(x.origin), ps, ks)
 
         tree_obs = obs(res)
         # implementation-only clause: every node of the result is registered under its own id, and the registry holds
